@@ -20,6 +20,9 @@ const namedMax = 8
 
 // noteNamed remembers the (tenant, request id) pairs the history has named; the by-request-id query is asked for the latest ones.
 func (w *World) noteNamed(f []string) {
+	if len(f) == 0 {
+		return
+	}
 	var t, req string
 	switch f[0] {
 	case "record", "cancel":
